@@ -347,8 +347,19 @@ def parseDeclaration (text : Inp) : Res Declaration :=
         some (rest3, { data := decl, important := value.important })
     | _ => none
 
+/-- further `;` (each followed by optional whitespace) after the first: `many0(tuple((tag(";"), skip_ws)))` -/
+def eatSemis : Nat → Inp → Inp
+  | f + 1, ';' :: r => eatSemis f (skipWs r)
+  | _, i => i
+
+/-- the separator of `parse_rules`: `many1(tuple((skip_ws, tag(";"), skip_ws)))` -/
+def sepSemis (i : Inp) : Res Unit :=
+  match skipWs i with
+  | ';' :: r => some (eatSemis r.length (skipWs r), ())
+  | _ => none
+
 def parseRules (text : Inp) : Res (List Declaration) :=
-  separatedList0 (fun i => match i with | ';' :: r => some (skipWs r, ()) | _ => none) parseDeclaration text
+  separatedList0 sepSemis parseDeclaration text
 
 /-! selectors -/
 inductive SelComp
@@ -506,7 +517,7 @@ def parseRuleset (text : Inp) : PRes RuleSet :=
        | none => .fail
        | some (r2, decls) =>
          let r3 := skipWs r2
-         let r3 := match r3 with | ';' :: r => r | _ => r3
+         let r3 := eatSemis r3.length r3
          match skipWs r3 with
          | '}' :: r4 => .ok (skipWs r4) { selectors := sels, decls := decls }
          | _ => .fail)
